@@ -416,6 +416,11 @@ func vsPrunerStore(s *verifsim.Sim, dir string) {
 		has, _ := st.HasByHeight(ctx, h)
 		q4, _ := st.HasQ4ByHash(ctx, b.sq.Roots.Hash())
 		shared := vsSharedHashAny(blocks, b)
+		byHash, _ := st.HasByHash(ctx, b.sq.Roots.Hash())
+		if !archival && !has && byHash && !shared && !vsEmpty(b) {
+			s.Violate("c14-old-blocks-never-pruned", "files-left-behind", "pruned node: height %d is older than window %v + block time behind head %d; its height link is gone but the block's files are still in the store after the fault-free continuation (removal recorded=%v)", h, window, head.Height(), b.removed)
+			return
+		}
 		switch {
 		case archival && q4 && !vsEmpty(b) && !shared:
 			s.Violate("c14-old-blocks-never-pruned", "continuation", "archival node: height %d is older than window %v + block time behind head %d but still has its parity quadrant after the fault-free continuation (trim recorded=%v)", h, window, head.Height(), b.trimmed)
